@@ -3,9 +3,9 @@
    What has content is that its SIGNATURE is faithful: the prior contents u0, v0 of the output containers are
    arguments (the C++ can see them) and the theorems below show the result does not depend on them.
    Only statements; every proof is `exact <lemma>` (proofs live in the files imported below). *)
-From Coq Require Import Arith List Bool.
+From Coq Require Import Arith List Bool ZArith Floats.
 Import ListNotations.
-From MT Require Import Arith SweepModel GraphModel InitModel CtrlModel MainModel RunProofs MainProofs FactorizeProofs.
+From MT Require Import Arith SweepModel GraphModel InitModel CtrlModel MainModel RunProofs MainProofs FactorizeProofs Mt19937 SeededModel SeedProofs.
 
 (* prior contents of the membership containers do not influence report, affinity, labels, memberships -- *)
 (* provided the first reported likelihood is above lowest() (finite, not NaN: see C03); the container for *)
@@ -19,7 +19,7 @@ Theorem C07_prior_independent : forall (num : Type) (A : Arith num) (label : Typ
          nconv u_rows u_cols u0 v0 aff0 stream = Ok num label res ->
        factorize num A label leqb wt countf ovr directed assort from_init starts ends weights r maxit
          nconv u_rows u_cols u0' v0' aff0 stream = Ok num label res' ->
-       ltb A (lowest A) (List.hd (lowest A) (List.map snd (r_rep num label res))) = true ->
+       ltb A (lowest A) (hd (lowest A) (map snd (r_rep num label res))) = true ->
        r_rep num label res = r_rep num label res' /\
        r_aff num label res = r_aff num label res' /\
        r_labels num label res = r_labels num label res' /\
@@ -42,7 +42,7 @@ Theorem C07_prior_independent_general : forall (num : Type) (A : Arith num) (lab
        r_rep num label res = r_rep num label res' /\
        r_aff num label res = r_aff num label res' /\
        r_labels num label res = r_labels num label res' /\
-       (best_index num A (List.map snd (r_rep num label res)) <> None ->
+       (best_index num A (map snd (r_rep num label res)) <> None ->
         r_u num label res = r_u num label res' /\
         (directed = true -> r_v num label res = r_v num label res')).
 Proof. exact factorize_prior_independent. Qed.
@@ -57,7 +57,7 @@ Theorem C07_nothing_adopted : forall (num : Type) (A : Arith num) (label : Type)
          (res : result num label),
        factorize num A label leqb wt countf ovr directed assort from_init starts ends weights r maxit
          nconv u_rows u_cols u0 v0 aff0 stream = Ok num label res ->
-       best_index num A (List.map snd (r_rep num label res)) = None ->
+       best_index num A (map snd (r_rep num label res)) = None ->
        r_u num label res = u0 /\ r_v num label res = v0.
 Proof. exact factorize_nothing_adopted. Qed.
 Print Assumptions C07_nothing_adopted.
@@ -74,6 +74,35 @@ Theorem C07_errors_prior_independent : forall (num : Type) (A : Arith num) (labe
          nconv u_rows u_cols u0' v0' aff0 stream = Error num label c.
 Proof. exact factorize_error_prior_independent. Qed.
 Print Assumptions C07_errors_prior_independent.
+
+(* of the random stream only the first draws_needed values are read (any continuation of the stream gives the same result) ... *)
+Theorem C07_only_the_seed_matters : forall (num : Type) (A : Arith num) (label : Type) (leqb : label -> label -> bool) 
+         (wt : Type) (countf : wt -> nat) (ovr : nat -> nat -> num -> num)
+         (directed assort from_init : bool) (starts ends : list label) (weights : list wt)
+         (r maxit nconv u_rows u_cols : nat) (u0 v0 : matrix num) (aff0 s t : list num),
+       draws_needed label leqb wt countf directed assort from_init starts ends weights 
+         (length aff0) u_rows u_cols r maxit nconv <= length s ->
+       factorize num A label leqb wt countf ovr directed assort from_init starts ends weights r maxit
+         nconv u_rows u_cols u0 v0 aff0 (s ++ t) =
+       factorize num A label leqb wt countf ovr directed assort from_init starts ends weights r maxit
+         nconv u_rows u_cols u0 v0 aff0 s.
+Proof. exact factorize_ignores_stream_tail. Qed.
+Print Assumptions C07_only_the_seed_matters.
+
+(* ... so the call is a function of the SEED: factorize_seeded (the model the correspondence runs) is factorize on any long enough prefix of mt19937(seed) *)
+Theorem C07_function_of_the_seed : forall (A : Arith float) (label : Type) (leqb : label -> label -> bool) 
+         (wt : Type) (countf : wt -> nat) (ovr : nat -> nat -> float -> float)
+         (directed assort from_init : bool) (starts ends : list label) (weights : list wt)
+         (r maxit nconv u_rows u_cols : nat) (u0 v0 : matrix float) (aff0 : list float) 
+         (seed : Z) (n : nat),
+       draws_needed label leqb wt countf directed assort from_init starts ends weights 
+         (length aff0) u_rows u_cols r maxit nconv <= n ->
+       factorize float A label leqb wt countf ovr directed assort from_init starts ends weights r maxit
+         nconv u_rows u_cols u0 v0 aff0 (mt_draws seed n) =
+       factorize_seeded A label leqb wt countf ovr directed assort from_init starts ends weights r
+         maxit nconv u_rows u_cols u0 v0 aff0 seed.
+Proof. exact factorize_seeded_stable. Qed.
+Print Assumptions C07_function_of_the_seed.
 
 (* non-vacuity / necessity of the proviso: both examples are proved in FactorizeProofs.v *)
 Check prior_independence_example.
